@@ -145,14 +145,34 @@ where
             finish(op, idx, &desc, c.to_be_bytes().as_ref())
         }
         "decrypt" | "decrypt_fast" => {
-            let c: RawCiphertext<C> = if idx % 7 == 6 {
+            // ciphertexts that are NOT units modulo N (a multiple of one prime, of N, zero): decryption is defined on every element of
+            // Z_{N^2} and its control flow must not tell these apart from honest ciphertexts
+            let prime = |which: usize| -> Uint<M> {
+                let a = Uint::<P>::from_be_hex(table[2 * kix]); let b = Uint::<P>::from_be_hex(table[2 * kix + 1]);
+                let x = if which == 0 { a } else { b };
+                Uint::<M>::from((x, Uint::<P>::ZERO))
+            };
+            let nonunit = |f: Uint<M>, rs: &mut ChaCha20Rng| -> RawCiphertext<C> {
+                let t = Uint::<M>::random_mod(rs, &n);
+                let (lo, hi) = f.mul_wide(&t);
+                RawCiphertext::from_uint(Uint::<C>::from((lo, hi)).rem(&NonZero::new(*pk.get_nn()).unwrap()))
+            };
+            let c: RawCiphertext<C> = if idx % 16 == 9 {
+                desc.push_str(" ciphertext=multiple of one prime"); nonunit(prime(0), &mut rs)
+            } else if idx % 16 == 10 {
+                desc.push_str(" ciphertext=multiple of the other prime"); nonunit(prime(1), &mut rs)
+            } else if idx % 16 == 11 {
+                desc.push_str(" ciphertext=multiple of N"); nonunit(*n, &mut rs)
+            } else if idx % 16 == 12 {
+                desc.push_str(" ciphertext=0"); RawCiphertext::from_uint(Uint::<C>::ZERO)
+            } else if idx % 7 == 6 {
                 desc.push_str(" ciphertext=random element of Z_{N^2}");
                 RawCiphertext::from_uint(Uint::<C>::random_mod(&mut rs, &NonZero::new(*pk.get_nn()).unwrap()))
             } else {
                 pk.encrypt_with_r(&pm, &r)
             };
             let d = if op == "decrypt" { measured(|| sk.decrypt(&c)) } else { measured(|| sk.decrypt_fast(&c)) };
-            if idx % 7 != 6 && d.to_uint() != m {
+            if idx % 7 != 6 && !(9..=12).contains(&(idx % 16)) && d.to_uint() != m {
                 eprintln!("slcov: {op} returned a wrong plaintext");
                 unsafe { _exit(3) }
             }
